@@ -441,6 +441,14 @@ example : tsDispatch true (fun o => o.getD 99) (fun o => o != some 50)
                 (mtEmpty (fun o => o.getD 99) (fun o => o != some 50) (fun _ => true) (some 2)))
     (some 2) [⟨[some 50], false⟩, ⟨[some 2], false⟩, ⟨[some 3], false⟩] = some 0 := by decide
 
+/-- a `case nil` among the concrete cases disables the jump table (typeutil.Map.Iterate skips the
+    nil key): here the table would send an operand of reflect type 2 to clause 0, the sequential
+    test `fun _ => false` of the clauses falls through to the default -/
+example : tsDispatch true (fun o => o.getD 0) (fun _ => true) (fun _ => false) (some 2)
+    [⟨[some 2], false⟩, ⟨[some 3, none], false⟩, ⟨[], true⟩] = some 2 := by decide
+example : tsDispatch true (fun o => o.getD 0) (fun _ => true) (fun _ => false) (some 2)
+    [⟨[some 2], false⟩, ⟨[some 3], false⟩, ⟨[], true⟩] = some 0 := by decide
+
 /-- `typeswitch_first_match` (2): what "sequential" means – clause `i` is chosen iff it is not
     the default, its test passes and no earlier non-default clause passes. -/
 theorem tsSequential_first (ct : Clause → Bool) :
